@@ -262,6 +262,7 @@ type Val struct {
 	L    []Term
 	Addr *Addr
 	Clo  *Closure
+	Dyn  types.Type // interfaces: statically known dynamic type (from MakeInterface)
 }
 
 func (v Val) scalar() Term {
